@@ -15,6 +15,8 @@ Case kinds
 Findings exercised (tags), reported by the oracle:
   C16-scalar-label-lost  nvdim=1 field with an explicit label: label is not stored, read back None
   C16-label-field        component label 'field' collides with the reserved vector array
+  C16-legacy-far-single-point  legacy file with a single-point axis at |x| >= 1e8: the 1 nm default cell
+                         vanishes in float arithmetic, Region raises (zero edge) and the file is not read
   C16-txt-subregions     text form rounds the corners to 11 digits; the exact side-car subregions are
                          then rejected by the subregion setter and the whole read raises ValueError
 """
@@ -45,6 +47,7 @@ _counter = [0]
 T_SCALAR = "C16-scalar-label-lost"
 T_FIELD = "C16-label-field"
 T_TXTSUB = "C16-txt-subregions"
+T_LEGFAR = "C16-legacy-far-single-point"
 
 SCALES = [1e-12, 1e-9, 1e-9, 1e-6, 1e-3, 1.0, 1e3, 1e6]
 REPS = ["bin", "txt", "xml", "bin8"]
@@ -150,6 +153,10 @@ def gen_subs(rng, m):
     hi = [max(a, b) for a, b in zip(p1, p2)]
     n = m["n"]
     subs = []
+    if not m["exact"] and max(abs(x) for x in lo + hi) > 100:
+        # the setter's alignment tolerance is absolute (1e-12): beyond ~1e2 the float noise of a lattice
+        # point is no longer far below it and the decision is C14's near-threshold business
+        return []
     for name in rng.sample(["a", "b", "core", "r 1"], rng.randint(1, 2)):
         a, b = [], []
         for ax in range(len(n)):
@@ -316,9 +323,15 @@ def gen_read(rng, nmax):
 
 
 def gen_legacy(rng, exact, nmax):
-    m = gen_mesh(rng, exact, nmax, cells_max=30)
-    lo, hi, cell = geom(m)
-    n = m["n"]
+    while True:
+        m = gen_mesh(rng, exact, nmax, cells_max=30)
+        lo, hi, cell = geom(m)
+        n = m["n"]
+        # single-point axes are read with a 1 nm default cell; where that is close to the float
+        # resolution of the coordinate the outcome is a rounding accident: stay clearly below (<= 1e5)
+        # or clearly above (>= 1e8, tagged finding T_LEGFAR)
+        if all(n[a] > 1 or not (1e5 < abs(float(lo[a] + hi[a]) / 2) < 1e8) for a in range(3)):
+            break
     variant = rng.choice(["plain"] * 6 + ["truncated", "zero-step", "descending", "long"])
     coords = []
     for a in range(3):
@@ -733,6 +746,8 @@ def run_legacy(c):
     d = newdir()
     path = os.path.join(d, "f.vtk")
     coords = [[F(x) for x in cc] for cc in c["coords"]]
+    if any(len(cc) == 1 and abs(cc[0]) >= 10 ** 8 for cc in coords):
+        rec["tags"].append(T_LEGFAR)
     rows = [[F(x) for x in r] for r in c["rows"]]
     with open(path, "w") as fh:
         fh.write(legacy_text(coords, c["vec"], rows))
